@@ -43,7 +43,7 @@ class EvalStep(Harness):
         temps = Opaque('temporaries')
         vals = {'registry': reg, 'temporaries': temps, 'now': Opaque('now'), 'use_humanize': I.bool('use_humanize'),
                 'save_previous_result': flag, 'previous_result': prev}
-        ctxv = Struct('Context', [vals[f] for f in fields])
+        ctxv = Struct('Context', [vals.get(f, Opaque(f)) for f in fields])
         # the evaluator's verdict
         k = ex.choose(len(REPLY_VARIANTS) + 1, 'eval_query outcome')
         nv_ = I.real('new_value')
@@ -168,3 +168,108 @@ class StaticPurity(Harness):
 
 def harnesses(tier):
     return [EvalStep(), StaticPurity()]
+
+
+# --------------------------------------------------------------------------------------------------------------
+from .c09 import TO_PARTS_STUB, CANON_STUB, CONF_STUB, DEFAULT_PARTS, UNKNOWN_STUB
+from .c10 import NUMVAL_STUB, UNITSTR_STUB, DESCRIBE_STUB
+from .c14 import stub_date_reply
+from mirsym.lib import mk_datetime, MapV
+
+
+def stub_eval_expr_value(ex, nc, args):
+    return ok(dup(ex.env['value']))
+
+
+class ReplyKinds(Harness):
+    """only a plain expression query may produce QueryReply::Number (the one variant `eval` stores as ans)"""
+    name = 'eval_query.reply_kinds'
+    props = ('C15', 'C04')
+    entry = 'eval_query'
+    describe = ('eval_query on every conversion form (base, digits modes, expression target, unit list, scale, offset), search and error, '
+                'with the source expression evaluating to an arbitrary Number (dimensionless, seconds or metres) or date')
+    stubs = (LOOKUP_STUB, SHOW_STUB, TO_PARTS_STUB, CANON_STUB, CONF_STUB, DEFAULT_PARTS, UNKNOWN_STUB, NUMVAL_STUB, UNITSTR_STUB, DESCRIBE_STUB,
+             (r'^eval_expr$', stub_eval_expr_value, 'eval_expr -> arbitrary Value (Number with one of three units, or DateTime)'),
+             (r'^Number::to_parts_digits$', TO_PARTS_STUB[1], 'Number::to_parts_digits -> NumberParts{raw_value: self}'),
+             (r'^DateReply::new$', stub_date_reply, 'DateReply::new -> record'),
+             (r'^(commands::)?search$', lambda ex, nc, a: Struct('SearchReply', [Arr([])]), 'commands::search -> empty SearchReply'),
+             (r'^eval_unit_name$', lambda ex, nc, a: ok(Tup([MapV(), rational(Fraction(1))])), 'eval_unit_name -> ({}, 1)'))
+    loop_bound = 20
+    expect_classes = ['Result::Ok', 'Result::Err']
+    _concrete = None
+    FORMS = ['plain', 'convert_none_default', 'base', 'base_digits', 'digits', 'fullint', 'fraction', 'scientific', 'engineering',
+             'expr', 'list', 'degree', 'offset', 'search', 'error']
+
+    def build(self, ex, I):
+        form = self.FORMS[ex.choose(len(self.FORMS), 'query form')]
+        vk = ex.choose(4, 'value kind')
+        x = I.real('x')
+        if vk == 3:
+            value = variant(ex, 'Value', 'DateTime', [variant(ex, 'GenericDateTime', 'Fixed', [mk_datetime(I.int('d'), Struct('FixedOffset', [0]))])])
+        else:
+            unit = [{}, {'s': (True, 1)}, {'m': (True, 1)}][vk]
+            value = variant(ex, 'Value', 'Number', [number(rational(x), dim(unit))])
+        ex.env['value'] = value
+        ex.env['units'] = {'u0': number(rational(Fraction(60)), dim({'s': (True, 1)})), 'u1': number(rational(Fraction(1)), dim({'s': (True, 1)})),
+                           'kelvin': number(rational(Fraction(1)), dim({'K': (True, 1)})), 'zerocelsius': number(rational(Fraction(27315, 100)), dim({'K': (True, 1)}))}
+        top = expr_const(ex, rational(Fraction(1)))
+        D = lambda n, f=(): variant(ex, 'Digits', n, list(f))
+        C = lambda n, f=(): variant(ex, 'Conversion', n, list(f))
+        Q = lambda conv, base, digits: variant(ex, 'Query', 'Convert', [top, conv, base, digits])
+        q = {
+            'plain': lambda: variant(ex, 'Query', 'Expr', [top]),
+            'convert_none_default': lambda: Q(C('None'), none(ex), D('Default')),
+            'base': lambda: Q(C('None'), some(ex, 10), D('Default')),
+            'base_digits': lambda: Q(C('None'), some(ex, 16), D('Digits', [5])),
+            'digits': lambda: Q(C('None'), none(ex), D('Digits', [5])),
+            'fullint': lambda: Q(C('None'), none(ex), D('FullInt')),
+            'fraction': lambda: Q(C('None'), none(ex), D('Fraction')),
+            'scientific': lambda: Q(C('None'), none(ex), D('Scientific')),
+            'engineering': lambda: Q(C('None'), none(ex), D('Engineering')),
+            'expr': lambda: Q(C('Expr', [expr_const(ex, rational(Fraction(2)))]), none(ex), D('Default')),
+            'list': lambda: Q(C('List', [Arr(['u0', 'u1'])]), none(ex), D('Default')),
+            'degree': lambda: Q(C('Degree', [variant(ex, 'Degree', 'Celsius')]), none(ex), D('Default')),
+            'offset': lambda: Q(C('Offset', [3600]), none(ex), D('Default')),
+            'search': lambda: variant(ex, 'Query', 'Search', ['foo']),
+            'error': lambda: variant(ex, 'Query', 'Error', ['bad']),
+        }[form]()
+        cf = ex.prog.src.structs['Context']
+        rf = ex.prog.src.structs['Registry']
+        rv = {f: MapV() for f in rf}
+        rv['prefixes'] = Arr([])
+        rv['datepatterns'] = Arr([])
+        cv = {f: Opaque(f) for f in cf}
+        cv['registry'] = Struct('Registry', [rv[f] for f in rf])
+        cv['previous_result'] = none(ex)
+        ctxv = Struct('Context', [cv[f] for f in cf])
+        return [ref(ctxv), ref(q)], {'form': form}
+
+    def post(self, ex, ctx, outcome):
+        r = deref_all(outcome[1])
+        if is_err(r):
+            return []
+        rep = deref_all(payload(r))
+        plain = ctx['form'] in ('plain', 'convert_none_default')
+        return [('only a plain expression yields the Number reply that `eval` stores as ans (form %s gave %s)' % (ctx['form'], rep.vname),
+                 (rep.vname != 'Number') or plain)]
+
+    def case(self, ctx, vals, label):
+        c = Harness.case(self, ctx, vals, label)
+        c['inputs']['form'] = ctx['form']
+        return c
+
+    TEXT = {'base': '7 -> base 10', 'base_digits': '7 -> digits 5 base 16', 'digits': '7 -> digits 5', 'fullint': '7 -> digits', 'fraction': '7 -> fraction',
+            'scientific': '7 -> scientific', 'engineering': '7 -> engineering', 'expr': '7 -> 2', 'list': '7 s -> minute;second',
+            'degree': '300 kelvin -> degC', 'offset': 'now -> +01:00', 'search': 'search foo', 'error': '7 ->'}
+
+    def native(self, inputs, label):
+        t = self.TEXT.get(inputs['form'], '7 -> base 10')
+        return [{'mode': 'query', 'save_previous_result': True, 'ans': number_json(Fraction(5), {}), 'pre': [t], 'text': 'ans'}]
+
+    def judge(self, inputs, label, obs):
+        got = obs_number_json(obs[0])
+        return (got != (Fraction(5), {})), 'after `%s`, ans = %s (expected the earlier 5)' % (self.TEXT.get(inputs['form']), got)
+
+
+def harnesses(tier):   # noqa: F811
+    return [EvalStep(), StaticPurity(), ReplyKinds()]
